@@ -29,6 +29,7 @@ type Step struct {
 	D       time.Duration
 	Cause   string // shutdown | broker-close | broker-garbage | sn-garbage
 	NoWait  bool   // do not wait for quiescence after this step (racy scripts)
+	N       int    // "stall-partial": bytes the broker's receive buffer still takes
 }
 
 func (s Step) String() string {
@@ -45,6 +46,10 @@ func (s Step) String() string {
 		return fmt.Sprintf("advance %v", s.D)
 	case "stall":
 		return "broker stops reading"
+	case "stall-partial":
+		return fmt.Sprintf("broker stops reading, its receive buffer takes %d more bytes (partial writes)", s.N)
+	case "resume":
+		return "broker reads again"
 	case "fail-broker-writes":
 		if s.D > 0 {
 			return "every later gateway->broker write fails"
@@ -199,6 +204,13 @@ func execSteps(w *world.World, s *world.Session, b *world.Broker, steps []Step) 
 		case "stall":
 			w.Tr.Add(s.ID, world.Note, nil, "broker stops reading (link capacity 2048 bytes)")
 			s.StallBroker(2048)
+		case "stall-partial":
+			w.Tr.Add(s.ID, world.Note, nil, st.String())
+			s.MQ.SetPartialWrites(true)
+			s.StallBroker(st.N)
+		case "resume":
+			w.Tr.Add(s.ID, world.Note, nil, st.String())
+			s.ResumeBroker()
 		case "fail-broker-writes":
 			w.Tr.Add(s.ID, world.Note, nil, st.String())
 			if st.D > 0 {
